@@ -382,7 +382,8 @@ func c07Case(w *core.Worker, i int) {
 		}
 	}
 	// Q3b: a cut query as the operand of IN / NOT IN / ANY: the rows it contributes are exactly the cut of the sorted rows
-	if n > 0 {
+	// (the sub-query is evaluated once per row: in the thorough tier every fourth table takes these queries)
+	if n > 0 && (w.Tier != "thorough" || i%4 == 1) {
 		m := r.Range(0, n)
 		lim := r.Range(0, n)
 		for k, cut := range []string{fmt.Sprintf("OFFSET %d", m), fmt.Sprintf("LIMIT %d", lim), fmt.Sprintf("LIMIT %d OFFSET %d", lim, m), fmt.Sprintf("OFFSET %d ROWS", m)} {
